@@ -16,7 +16,7 @@ var staticFS embed.FS
 
 // Run is the C08 check.
 func Run(c *core.Ctx) int {
-	n := c.N(24, 800)
+	n := c.N(24, 400)
 	var mu sync.Mutex
 	programs, lines := 0, 0
 	distinct := map[string]bool{}
